@@ -465,6 +465,48 @@ fn node_type(input: &str) -> IResult<&str, model::NodeType> {
 
 // -----------------------------------------------------------------------------------------------
 
+/// Verification hook: runs one (possibly private) production on `input` and reports the
+/// number of bytes it consumed, or `Err(())` when it fails.  `None` for an unknown name.
+#[cfg(feature = "verif")]
+pub fn verif_production(production: &str, input: &str) -> Option<Result<usize, ()>> {
+    fn run<O, E>(input: &str, r: Result<(&str, O), E>) -> Result<usize, ()> {
+        r.map(|(rest, _)| input.len() - rest.len()).map_err(|_| ())
+    }
+    Some(match production {
+        "parse" => run(input, parse(input)),
+        "relative_location_path" => run(input, relative_location_path(input)),
+        "step" => run(input, step(input)),
+        "axis_specifier" => run(input, axis_specifier(input)),
+        "axis_name" => run(input, axis_name(input)),
+        "node_test" => run(input, node_test(input)),
+        "predicate" => run(input, predicate(input)),
+        "predicate_expr" => run(input, predicate_expr(input)),
+        "expr" => run(input, expr(input)),
+        "primary_expr" => run(input, primary_expr(input)),
+        "function_call" => run(input, function_call(input)),
+        "argument" => run(input, argument(input)),
+        "union_expr" => run(input, union_expr(input)),
+        "path_expr" => run(input, path_expr(input)),
+        "filter_expr" => run(input, filter_expr(input)),
+        "or_expr" => run(input, or_expr(input)),
+        "and_expr" => run(input, and_expr(input)),
+        "equality_expr" => run(input, equality_expr(input)),
+        "relation_expr" => run(input, relation_expr(input)),
+        "additive_expr" => run(input, additive_expr(input)),
+        "multiplicative_expr" => run(input, multiplicative_expr(input)),
+        "unary_expr" => run(input, unary_expr(input)),
+        "literal" => run(input, literal(input)),
+        "number" => run(input, number(input)),
+        "function_name" => run(input, function_name(input)),
+        "variable_reference" => run(input, variable_reference(input)),
+        "name_test" => run(input, name_test(input)),
+        "node_type" => run(input, node_type(input)),
+        _ => return None,
+    })
+}
+
+// -----------------------------------------------------------------------------------------------
+
 #[cfg(test)]
 mod tests {
     use super::*;
